@@ -31,6 +31,52 @@ def oracle(req, steps, obs, m=None):
     req("equal-listing-implies-eq", "after:" + "+".join(steps[1:]), eq_pr)
 
 
+PH_KINDS = ["gate2", "measure", "defcal"]
+NPH = 2
+
+
+def ph_oracle(req, used_b, ment_b, used_a, ment_a, m=None):
+    req("used-qubits", "after:ph-build", set_eq(used_b, ment_b, m))
+    req("used-qubits", "after:ph-resolve", set_eq(used_a, ment_a, m))
+
+
+def ph_program(m, td, items, qph):
+    """items: (kind, [qubit specs], [body qubit specs]); spec = ("fixed", value) | ("ph", id)"""
+    def q(spec):
+        if spec[0] == "fixed": return Agg("Qubit", td.enums["Qubit"].index("Fixed"), [spec[1]])
+        return Agg("Qubit", td.enums["Qubit"].index("Placeholder"), [qph[spec[1]]])
+
+    def st(sname, **kw):
+        a = Agg(sname, None, [None] * len(td.structs[sname]))
+        for kk, v in kw.items(): a.fields[td.structs[sname].index(kk)] = v
+        return a
+    V = td.enums["Instruction"].index
+    prog = m.call_path("Program::new", [])
+    cell = [prog]
+    for k, qs, bq in items:
+        if k == "gate2":
+            ins = Agg("Instruction", V("Gate"), [st("Gate", name=Str("X"), parameters=VecObj(), qubits=VecObj([q(x) for x in qs]), modifiers=VecObj())])
+        elif k == "measure":
+            ins = Agg("Instruction", V("Measurement"), [st("Measurement", name=NONE(), qubit=q(qs[0]), target=NONE())])
+        else:
+            ident = st("CalibrationIdentifier", modifiers=VecObj(), name=Str("X"), parameters=VecObj(), qubits=VecObj([q(x) for x in qs]))
+            fence = Agg("Instruction", V("Fence"), [Agg("Fence", None, [VecObj([q(x) for x in bq])])])
+            ins = Agg("Instruction", V("CalibrationDefinition"), [st("CalibrationDefinition", identifier=ident, instructions=VecObj([fence]))])
+        m.call_path("Program::add_instruction", [Ref(cell, 0), ins])
+    return cell
+
+
+def ph_observe(m, cell):
+    r = m.call_path("Program::get_used_qubits", [Ref(cell, 0)])
+    t = to_tree(m, r)
+    used = t[1] if isinstance(t, tuple) and t[0] == "#set" else t
+    lst = m.call_path("Program::to_instructions", [Ref(cell, 0)])
+    ment = []
+    for i in range(len(lst.items)):
+        ment += list(to_tree(m, m.call_path("Instruction::get_qubits", [Ref(lst.items, i)])))
+    return used, ment
+
+
 class C10(Check):
     id = "C10"
     title = "A program's used-qubit set and equality depend only on its content"
@@ -38,14 +84,15 @@ class C10(Check):
                  "<Program as PartialEq>::eq", "Instruction::get_qubits", "Calibrations::*", "CalibrationSet::*"]
     assumptions = ["HashSet<Qubit> modelled as a set with structural Eq of Qubit (interpreted PartialEq for placeholders is not exercised: fixed qubits only)",
                    "histories: a start sequence followed by operations from the listed alphabet (gate-sequence expansion with the filter `all`; calibration expansion, simplify and resolve_placeholders in the thorough tier)"]
-    outside = ["histories longer than the bound", "programs with placeholders (resolve_placeholders is exercised on placeholder-free programs only: C34 covers the rest)"]
+    outside = ["histories longer than the bound", "placeholder programs combined with the other history operations (the placeholder mode runs build + resolve_placeholders only)", "target placeholders (C34)"]
+    PH_N = {"quick": 2, "thorough": 3}
     N = {"quick": 1, "thorough": 2}
     H = {"quick": 2, "thorough": 3}
     sample_rate = 128
     max_paths = {"quick": 400000, "thorough": 6000000}
 
     def bounds(self, tier):
-        return {"start_sequence": f"<= {self.N[tier]}", "history_length": f"<= {self.H[tier]}", "operations": OPS[tier], "templates": [t.name for t in TP]}
+        return {"placeholder_mode": f"<= {self.PH_N[tier]} API-built instructions from {PH_KINDS}, qubits: any u64 or one of {NPH} placeholders", "start_sequence": f"<= {self.N[tier]}", "history_length": f"<= {self.H[tier]}", "operations": OPS[tier], "templates": [t.name for t in TP]}
 
     def setup(self, world, runner, tier):
         self.td = world.td
@@ -68,11 +115,47 @@ class C10(Check):
         s += [["rebuild", "r", "p"], ["eq", "p", "r"], ["to_instructions", "p"], ["to_instructions", "r"]]
         return s
 
+    def path_ph(self, m):
+        """programs built through the API with qubit placeholders in the body and inside a DEFCAL, then resolve_placeholders"""
+        td = m.td
+        n = m.choose([(k, None) for k in range(1, self.PH_N[m.tier] + 1)])
+        qph = [Agg("QubitPlaceholder", None, [Agg("Arc", None, [1000 + i])]) for i in range(NPH)]
+        items, spec, nq = [], [], 0
+
+        def pick():
+            nonlocal nq
+            c = m.choose([("fixed", None)] + [(("ph", p), None) for p in range(NPH)])
+            if c == "fixed":
+                v = m.fresh_bv(f"q{nq}", 64); nq += 1
+                return ("fixed", v), ["fixed", f"q{nq - 1}"]
+            return ("ph", c[1]), ["ph", c[1]]
+        for i in range(n):
+            k = m.choose([(x, None) for x in PH_KINDS])
+            qs, bq = [], []
+            for j in range({"gate2": 2, "measure": 1, "defcal": 1}[k]): qs.append(pick())
+            if k == "defcal": bq.append(pick())
+            items.append((k, [a for a, _ in qs], [a for a, _ in bq]))
+            spec.append({"kind": {"gate2": "gate"}.get(k, k), "qubits": [b for _, b in qs], "body_qubits": [b for _, b in bq]})
+        m.ctx = {"mode": "ph", "spec": spec}
+        cell = ph_program(m, td, items, qph)
+        used_b, ment_b = ph_observe(m, cell)
+        m.call_path("Program::resolve_placeholders", [Ref(cell, 0)])
+        used_a, ment_a = ph_observe(m, cell)
+        ph_oracle(lambda k, d, g: m.require(k, d, g), used_b, ment_b, used_a, ment_a, m)
+        if m.want_sample() and m._check() == z3.sat:
+            zm = m.solver.model()
+            mdl = m.model_dict(zm); mdl["_ctx"] = m.ctx
+            c = self.case("sample", "", mdl)
+            c["obs"] = json_tree(eval_tree([used_b, ment_b, used_a, ment_a], zm, None))
+            return c
+        return None
+
     def path(self, m):
+        if m.choose([("script", None), ("ph", None)]) == "ph": return self.path_ph(m)
         n = m.choose([(k, None) for k in range(0, self.N[m.tier] + 1)])
         h = m.choose([(k, None) for k in range(1, self.H[m.tier] + 1)])
         ops = [m.choose([(o, None) for o in OPS[m.tier]]) for _ in range(h)]
-        m.ctx = {"n": n, "ops": ops}
+        m.ctx = {"mode": "script", "n": n, "ops": ops}
         ins = sym_instructions(m, n + h, "i", TP)
         obs = run_script(m, self.build_script(n, ops), ins)
         oracle(lambda k, d, g: m.require(k, d, g), ["build"] + ops, obs, m)
@@ -84,18 +167,45 @@ class C10(Check):
 
     def case(self, kind, detail, model):
         ctx = model["_ctx"]
+        if ctx.get("mode") == "ph":
+            spec = []
+            for it in ctx["spec"]:
+                f = lambda qs: [["fixed", model.get(q[1], 0)] if q[0] == "fixed" else ["ph", q[1]] for q in qs]
+                spec.append({"kind": it["kind"], "qubits": f(it["qubits"]), "body_qubits": f(it["body_qubits"])})
+            return {"mode": "ph", "spec": spec, "kind": kind, "detail": detail}
         n, ops = ctx["n"], ctx["ops"]
         return {"n": n, "ops": ops, "texts": texts_from_model(self.td, n + len(ops), model, "i", TP), "kind": kind, "detail": detail}
 
     def rank(self, model):
+        if model["_ctx"].get("mode") == "ph": return 0
         # try counterexamples whose history has no cache-resetting operation first (they cannot be explained by the known finding)
         return sum(1 for o in model["_ctx"]["ops"] if o in RESET_OPS)
+
+    def native_ph(self, runner, case):
+        r = runner.call({"op": "placeholders", "spec": case["spec"], "custom": None})
+        if "used_qubits" not in r: return None, r
+        return [[parse_debug(x) for x in r[k]] for k in ("used_before", "mentioned_before", "used_qubits", "mentioned_after")], r
+
+    def confirm_ph(self, runner, case):
+        obs, raw = self.native_ph(runner, case)
+        if obs is None:
+            if "panic" in raw or "crash" in raw: return True, "panic", f"panics on {case['spec']}: {raw}"
+            return False, "input", str(raw)[:300]
+        col = Collect()
+        ph_oracle(col, *obs)
+        if not col.failed: return False, "", "native run satisfies the oracle"
+        kind, detail = col.failed[0]
+        used, ment = (obs[0], obs[1]) if detail == "after:ph-build" else (obs[2], obs[3])
+        missing = [q for q in ment if not any(tree_eq(q, u) is True for u in used)]
+        role = f"used-qubits:{detail}:" + ("missing" if missing else "extra")
+        return True, role, f"{kind} ({detail}) fails for the API-built program {case['spec']}: used={used} mentioned={ment}"
 
     def native(self, runner, case):
         obs, raw = native_script(runner, self.build_script(case["n"], case["ops"]), case["texts"])
         return obs, raw
 
     def confirm(self, runner, case):
+        if case.get("mode") == "ph": return self.confirm_ph(runner, case)
         obs, raw = self.native(runner, case)
         if obs is None:
             if "panic" in raw or "crash" in raw: return True, "panic", f"panics on {case}: {raw}"
@@ -123,6 +233,14 @@ class C10(Check):
         return True, role, f"{kind} ({detail}) fails for start={case['texts'][:case['n']]} history={list(zip(case['ops'], case['texts'][case['n']:]))}"
 
     def validate(self, runner, sample):
+        if sample.get("mode") == "ph":
+            obs, raw = self.native_ph(runner, sample)
+            if obs is None: return f"native run failed: {raw}"
+            # placeholder identities differ between the two worlds: compare the fixed qubits and the counts
+            def norm(lst): return (sorted(str(x) for x in lst if x[0] == "Fixed"), sum(1 for x in lst if x[0] != "Fixed"))
+            a, b = [norm(x) for x in json_tree(obs)], [norm(x) for x in sample["obs"]]
+            if a != b: return f"placeholder-mode observations differ for {sample['spec']}: {a} vs {b}"
+            return None
         obs, raw = self.native(runner, sample)
         if obs is None: return f"native run failed: {raw}"
         a, b = [normalize_obs(x) for x in json_tree(obs)], [normalize_obs(x) for x in sample["obs"]]
